@@ -2,7 +2,9 @@
 
 Programs: (a) vlib.ccorpus C functions (13 fixed + generated) cross-compiled by clang for x86_32, x86_64, arml,
 armtl, aarch64l, mips32l, mips32b, ppc32b, msp430; (b) hand-written templates assembled with miasm for x86_16, mepl,
-mepb.  Each program is called as f(a, b, c, arr) with the return address set to a sentinel carrying a stop
+mepb; (c) hand-written programs containing instructions that branch to themselves (x86_16/32/64 LOOP / LOOPNE / REP
+to their own address) or tight loops branching to their own block head (x86_32 DEC/JNZ, arml SUBS/BNE), run plainly
+and with breakpoints on these instructions (one hit per iteration expected).  Each program is called as f(a, b, c, arr) with the return address set to a sentinel carrying a stop
 breakpoint, under several memory maps for `arr` (present, missing, read-only, split over two pages, split with the
 second page read-only / missing) and once with two extra breakpoints placed on executed instructions.
 Oracle: the two backends must agree on termination kind, breakpoint-hit log, final get_gpreg(), all memory pages,
@@ -20,6 +22,10 @@ PG = 0x100
 STEP_LIMIT = 5000        # runiter_once rounds per run; the programs execute < 2000 instructions
 MAPS_QUICK = ["rw", "rw2", "missing", "ro", "split", "split-ro", "split-missing", "bp"]
 MAPS_THOROUGH = MAPS_QUICK + ["ro-split", "split-aligned", "rw3"]
+# self-branching templates: plain run, then breakpoints on the self-branching instructions (every iteration must hit)
+ARCHS_S = ["x86_32", "x86_16", "x86_64", "arml"]
+MAPS_SELF_QUICK = ["rw", "selfbp"]
+MAPS_SELF_THOROUGH = ["rw", "selfbp", "rw2", "selfbp2", "split"]
 
 EXC_NAMES = {1 << 0: "CODE_AUTOMOD", 1 << 1: "SOFT_BP", 1 << 2: "INT_XX", 1 << 3: "SPR_ACCESS", 1 << 4: "SYSCALL",
              1 << 10: "BREAKPOINT_MEMORY", 1 << 11: "NUM_UPDT_EIP", 1 << 14: "ACCESS_VIOL", 1 << 16: "DIV_BY_ZERO",
@@ -49,6 +55,7 @@ def inputs_for(arch, which):
         "rw2": ([0xffffffff, 0x7fffffff, 0x12345678], [0xfffffff0 + i for i in range(8)]),
         "rw3": ([0, 0, 0], [0] * 8),
     }
+    table["selfbp2"] = table["rw2"]
     args, arr = table.get(which, table["rw"])
     return [a & m for a in args], [x & m for x in arr]
 
@@ -58,7 +65,7 @@ def data_layout(arch, kind):
     d = jitlab.layout(arch)["data"]
     w = wbytes(arch)
     rw, ro = 3, 1
-    if kind in ("rw", "rw2", "rw3", "bp"):
+    if kind in ("rw", "rw2", "rw3", "bp", "selfbp", "selfbp2"):
         return d + 0x40, [[d, rw, PG, "data"]]
     if kind == "ro":
         return d + 0x40, [[d, ro, PG, "data"]]
@@ -268,6 +275,9 @@ def plan_units(tier):
         n = len(jitlab.X86_16_TEMPLATES) if arch == "x86_16" else len(jitlab.MEP_TEMPLATES)
         for k in range(n):
             units.append(("t", arch, "", k))
+    for arch in ARCHS_S:
+        for k in range(len(jitlab.SELF_BRANCH_TEMPLATES[arch])):
+            units.append(("s", arch, "", k))
     return units, ngen
 
 
@@ -280,7 +290,8 @@ class C20(Check):
     needs_build = True
     rule = ("programs = clang-compiled C functions (quick: 5 fixed + 1 generated per architecture at -O1; thorough: "
             "13 fixed + 12 generated at -O0/-O1/-O2/-Os; x86_32/64, arml, armtl, aarch64l, mips32l/b, ppc32b, msp430) and hand-written templates (x86_16, "
-            "mepl, mepb), each run on the python and gcc jitters under memory maps rw (2-3 input vectors), missing, "
+            "mepl, mepb; plus 6 self-branching programs: x86_16/32/64 LOOP/LOOPNE/REP to their own address, x86_32 and arml "
+            "tight loops to their own block head, run plainly and with a breakpoint on every self-branching instruction), each run on the python and gcc jitters under memory maps rw (2-3 input vectors), missing, "
             "read-only, split, split-ro, split-missing (+ro-split, split-aligned thorough) and once with two extra "
             "breakpoints on executed instructions; deterministic stratum identical at every seed plus a seeded "
             "supplement of generated functions and inputs. Non-trivial: >= 10 executed instructions including a "
@@ -317,6 +328,14 @@ class C20(Check):
             case = {"arch": arch, "tag": prog["tag"], "opt": prog.get("opt", ""), "code": prog["code"].hex(),
                     "base": prog["base"], "entry": prog["entry"], "args": args, "arr": arr, "map": kind,
                     "src": prog.get("src", "")}
+            if kind in ("selfbp", "selfbp2"):
+                # breakpoints on the instructions that branch to themselves / to their own block head: one hit per
+                # iteration is expected from both backends
+                regs = [jitlab.RET_REG[arch], jitlab.SELF_COUNTER[arch]]
+                case["bps"] = [[name.upper(), prog["labels"][name], {"log_regs": regs}]
+                               for name in ("self", "self2", "self3") if name in prog.get("labels", {})]
+                if not case["bps"]:
+                    continue
             if kind == "bp":
                 if not first_trace:
                     continue
@@ -349,9 +368,12 @@ class C20(Check):
             key = (arch, prog["tag"], prog.get("opt", ""), kind, tuple(args), tuple(arr)) if info["nt"] else None
             res.case(nontrivial_key=key, sample={"arch": arch, "program": prog["tag"], "map": kind,
                                                  "instructions": info.get("n_instr")}
-                     if info["nt"] and kind in ("split", "bp") else None)
+                     if info["nt"] and kind in ("split", "bp", "selfbp") else None)
             res.counters["arch:" + arch] += 1
             res.counters["map:" + kind] += 1
+            if kind in ("selfbp", "selfbp2") and "obs" in info and "events" in info["obs"]["python"]:
+                res.counters["self-branch-breakpoint-hits(python)"] += sum(
+                    1 for e in info["obs"]["python"]["events"] if e[0] == "bp" and e[1] != "S")
             if info.get("fault"):
                 res.counters["faulting-runs"] += 1
             res.counters["instructions-executed(python)"] += info.get("n_instr", 0)
@@ -394,15 +416,18 @@ class C20(Check):
             for u in mine:
                 groups.setdefault((u[0], u[1], u[2]), []).append(u[3])
             for (kind, arch, opt), ks in groups.items():
-                if kind == "t":
-                    progs = jitlab.template_programs(arch)
+                if kind in ("t", "s"):
+                    progs = jitlab.template_programs(arch) if kind == "t" else jitlab.self_branch_programs(arch)
+                    pmaps = maps
+                    if kind == "s":
+                        pmaps = MAPS_SELF_THOROUGH if tier == "thorough" else MAPS_SELF_QUICK
                     for k in ks:
                         p = progs[k]
                         if p["code"] is None:
                             res.dropped["template-" + p["reason"].split(":")[0]] += 1
                             continue
                         p = dict(p, arch=arch, opt="")
-                        self.run_program(lab, res, p, maps)
+                        self.run_program(lab, res, p, pmaps)
                     continue
                 funcs_all = det_functions(arch, ngen)
                 funcs = [funcs_all[k] for k in ks]
